@@ -733,6 +733,18 @@ func (sc *Scope) call(e *SExpr) *sv {
 			return boolVal(ap)
 		}
 
+	case "fileOf":
+		// fileOf(x): the bytes of the abstract file behind an io.ReaderAt / Writer value x (a string-like view from offset 0)
+		x := sc.eval(e.Args[0]).v
+		if x == nil || len(x.L) == 0 {
+			return sc.fail("fileOf expects a reader/writer value")
+		}
+		ref := x.L[0]
+		if isInterface(x.T) {
+			ref = x.L[1]
+		}
+		arr := mkSelect(ft.memGet(sc.mem, "FILE", fileCompSort()), ref)
+		return &sv{v: &Val{T: types.Typ[types.String], L: []Term{arr, idxInt(0), idxInt(maxLen)}}}
 	case "off0":
 		// off0(s): the slice view starts at index 0 of its backing array (true of every slice obtained from make/append)
 		x := sc.eval(e.Args[0]).v
